@@ -178,6 +178,54 @@ def difference_check(ctx, c, outs):
     return None
 
 
+def _same_name_pairs():
+    """pairs (derived group, named group) of DIFFERENT groups carrying the same name: the Laue groups of the axis-setting
+    variants are named after their Laue class ('2/m', '-3m'), like the standard-setting groups"""
+    from orix.quaternion import symmetry as S
+    named = {g.name: g for g in S._groups}
+    out = []
+    for g in S._groups:
+        L = g.laue
+        if L.name in named and L.name != g.name:
+            H = named[L.name]
+            if L.size == H.size and not same_group(L, H):
+                out.append((g.name, L, H))
+    return out
+
+
+def same_group(A, B):
+    a, b = A.data.reshape(-1, 4), B.data.reshape(-1, 4)
+    return all(np.min(np.minimum(np.abs(b - x).max(axis=1), np.abs(b + x).max(axis=1))) < 1e-9 for x in a)
+
+
+def same_name_check(ctx, c, outs):
+    """two-phase comparison of orientations whose groups are different but carry the same name: every API still gives the
+    brute-force value for the operations the groups actually hold, in both orders"""
+    pairs = _same_name_pairs()
+    if not pairs:
+        return None
+    src, A, B = pairs[c["pair"] % len(pairs)]
+    q1, q2 = np.asarray(c["q1"], float), np.asarray(c["q2"], float)
+    with warnings.catch_warnings():
+        warnings.simplefilter("ignore")
+        for G1, G2 in ((A, B), (B, A)):
+            O1, O2 = ori(G1, q1), ori(G2, q2)
+            a = O1.angle_with(O2)
+            ao = O1.angle_with_outer(O2)
+            al = O1.angle_with_outer(O2, lazy=True, chunk_size=2, progressbar=False)
+            for i in range(len(q1)):
+                ref = ang(brute_dot(G1, G2, q1[i], q2[i]))
+                if abs(a[i] - ref) > TOL_ANG:
+                    return (f"angle_with = {float(a[i])!r} but brute force = {ref!r} for two different groups that are both named "
+                            f"{G1.name!r} (Laue group of {src} and the named group); q1 = {q1[i].tolist()}, q2 = {q2[i].tolist()}")
+                for j in range(len(q2)):
+                    rj = ang(brute_dot(G1, G2, q1[i], q2[j]))
+                    if abs(ao[i, j] - rj) > TOL_ANG or abs(al[i, j] - rj) > TOL_ANG:
+                        return (f"angle_with_outer[{i},{j}] = {float(ao[i, j])!r} (lazy {float(al[i, j])!r}) but brute force = {rj!r} for two "
+                                f"different groups both named {G1.name!r} (Laue group of {src} and the named group)")
+    return None
+
+
 def outer_check(ctx, c, outs):
     G1, G2 = groups()[c["k1"]], groups()[c["k2"]]
     s1, s2 = tuple(c["s1"]), tuple(c["s2"])
@@ -306,6 +354,7 @@ SITES = {
     "pairwise": sites.Site("pairwise", "prop", pair_check),
     "outer": sites.Site("outer", "prop", outer_check),
     "difference": sites.Site("difference", "prop", difference_check),
+    "same_name_groups": sites.Site("same_name_groups", "prop", same_name_check),
     "distance_matrix": sites.Site("distance_matrix", "prop", distance_check),
     "mis_distance": sites.Site("mis_distance", "prop", mis_check, mis_lines),
 }
@@ -370,6 +419,11 @@ def generate(ctx):
     plist = [(names.index(a), names.index(b), nb) for a, b in fam if a in names and b in names]
     plist += [(k, k, 12) for k in range(nG)]
     plist += [(int(rng.integers(nG)), int(rng.integers(nG)), 40) for _ in range(10 if ctx.tier == "quick" else 100)]
+    for r in range(6 if ctx.tier == "quick" else 40):
+        n = 3
+        c = {"pair": r, "q1": [GQ.unit_quat(rng)[0] for _ in range(n)], "q2": [GQ.unit_quat(rng)[0] for _ in range(n)]}
+        ctx.count("same_name_groups", ("sng", r, tuple(c["q1"][0])), nontrivial=True)
+        yield "same_name_groups", c
     for j, (k1, k2, n) in enumerate(plist):
         shape = [[n], [2, n // 2], [n // 4, 4], [2, n // 4, 2]][j % 4]          # every n used here is a multiple of 4
         ctx.count("difference/" + ("same" if k1 == k2 else "two_groups") + f"/ndim{len(shape)}", ("df", k1, k2, n),
